@@ -10,7 +10,7 @@ from fractions import Fraction
 import z3
 
 from pyvc.executor import Executor, State, Ctx, Raised, Unsupported
-from pyvc.values import UFunc, ConcVec, Ref, fresh_name, to_bool, to_real
+from pyvc.values import UFunc, ConcVec, Ref, Opaque, fresh_name, to_bool, to_real
 from . import intcall
 
 F = "desolver/differential_system.py"
@@ -23,6 +23,12 @@ def zabs(x):
 def install_root_finder(ex, st_holder):
     def root_finder(ex_, st, ctx, args, kwargs):
         ev_f, bounds = args[0], args[1]
+        if isinstance(ev_f, Opaque) and ev_f.tag.split("!")[0] == "module_state":
+            # the functions given to the root finder were taken out of module-level state: they are whatever an earlier call -- of this
+            # or of another system, before or after a reset() -- stored there, wrapping *that* call's dense solution and constants
+            ex_.reg.ground("%s/%s/event-functions-are-built-from-this-call's-dense-solution" % (ex_.prop, ctx.tag), "post", "handle_events", False, backend="symbolic-exec (dataflow)",
+                           detail="root_finder is given a value read from a module-level container; its content at entry is not determined by the arguments of this call")
+            raise Unsupported("event functions taken from module-level state")
         fs = ex_.iterate(ev_f, st, ctx)
         lo, hi = ex_.iterate(bounds, st, ctx)
         roots, succ = [], []
